@@ -57,7 +57,10 @@ Inductive res :=
 | RCertErr (c : cert).   (* certificate and error (forceRenew failure) *)
 
 (** what called the maintenance code: nothing yet, optionalMaintenance on a cache hit, or
-    loadCertFromStorage on a freshly loaded certificate (which only logs errors) *)
+    loadCertFromStorage on a freshly loaded certificate.  loadCertFromStorage turns a maintenance
+    failure that yields no certificate into an error [fix 781aee7], and getCertDuringHandshake does
+    not go on to obtainOnDemandCertificate after such an error [fix 5058ec2]:
+    the handshake returns an error. *)
 Inductive mctx := CtxNone | CtxHit (c : cert) | CtxLoaded (c : cert).
 
 Definition final_res (x : mctx) (r : res) : res :=
@@ -70,7 +73,7 @@ Definition final_res (x : mctx) (r : res) : res :=
       end
   | CtxLoaded _ =>
       match r with
-      | RErr => REmpty
+      | RErr => RErr
       | RCertErr c => RCert c
       | _ => r
       end
@@ -186,7 +189,7 @@ Definition thread_step (s : state) (t : tid) (th : thread) (a : act) : option st
       match lmap s n with
       | Some ch =>
           (* the registered channel is this goroutine's own (it came back here after waiting for
-             an obtain / renewal): it does not wait on itself [fix bbe2e54] *)
+             an obtain / renewal): it does not wait on itself [fix 29c65de] *)
           if match t_ld th with Some own => Nat.eqb own ch | None => false end
           then go (PGate1 load)
           else go (PLoadWait ch (now s))
